@@ -76,6 +76,54 @@ def unwrap(seq):
     return seq
 
 
+def _mixed_sign_constructions(program: Program, run: Run, iv) -> None:
+    import ast
+    n = 0
+    for f in program.all_functions():
+        ctor_names = {"Interval"}
+        if f.cls is not None and (f.cls is iv or f.cls.is_subclass_of(iv)) and f.is_classmethod and f.params:
+            ctor_names.add(f.params[0])
+        # locals derived from <x>.seconds / <x>.microseconds (through divmod / arithmetic)
+        derived: dict[str, str] = {}
+        for _ in range(4):
+            for node in ast.walk(f.node):
+                if isinstance(node, ast.Assign):
+                    srcs = set()
+                    for x in ast.walk(node.value):
+                        if isinstance(x, ast.Attribute) and x.attr in ("seconds", "microseconds") and isinstance(x.value, ast.Name):
+                            srcs.add(x.value.id)
+                        elif isinstance(x, ast.Name) and x.id in derived:
+                            srcs.add(derived[x.id])
+                    if srcs:
+                        for t in node.targets:
+                            for tn in ([t] if isinstance(t, ast.Name) else (t.elts if isinstance(t, (ast.Tuple, ast.List)) else [])):
+                                if isinstance(tn, ast.Name):
+                                    derived[tn.id] = sorted(srcs)[0]
+        for node in ast.walk(f.node):
+            if not (isinstance(node, ast.Call) and isinstance(node.func, ast.Name) and node.func.id in ctor_names):
+                continue
+            n += 1
+            args = list(node.args) + [k.value for k in node.keywords if k.arg not in (None, "dialect")]
+            days_of = {x.value.id for a in args for x in ast.walk(a) if isinstance(x, ast.Attribute) and x.attr == "days" and isinstance(x.value, ast.Name)
+                       and not any(isinstance(w, ast.Call) and isinstance(w.func, ast.Name) and w.func.id == "abs" for w in ast.walk(a))}
+            rest_of = set()
+            for a in args:
+                for x in ast.walk(a):
+                    if isinstance(x, ast.Attribute) and x.attr in ("seconds", "microseconds") and isinstance(x.value, ast.Name):
+                        rest_of.add(x.value.id)
+                    elif isinstance(x, ast.Name) and x.id in derived:
+                        rest_of.add(derived[x.id])
+            bad = sorted(days_of & rest_of)
+            run.ob("C18/R5 components handed to the Interval constructor have one sign", f"{f.qualname}:{ast.unparse(node)[:60]}", not bad, where=f.loc(node), nontrivial=bool(days_of or rest_of))
+            if bad:
+                run.finding(f"C18/mixed-sign-components:{f.qualname}",
+                            f"{f.qualname} builds an Interval from `{bad[0]}.days` together with components derived from `{bad[0]}.seconds`/`.microseconds`: a negative timedelta is normalised to negative days "
+                            "plus NON-negative seconds (timedelta(hours=-1) is days=-1, seconds=82800), while the constructor applies the sign of the first non-zero component to the whole literal: "
+                            "the literal then denotes -(1 day 23 hours) instead of -1 hour", where=f.loc(node), rule="R5")
+    run.analysed = dict(getattr(run, "analysed", {}) or {})
+    run.analysed["interval_constructions_in_package"] = n
+
+
 def check(program: Program, run: Run) -> None:
     run.explanation = (
         "The literal is produced by a format template followed by a regular-expression trim; whether the trim can drop, merge or "
@@ -89,6 +137,7 @@ def check(program: Program, run: Run) -> None:
     run.rule("R2 each trim alternative is anchored, consumes only {0} U separators, and its inner boundary is a separator; no unanchored alternative")
     run.rule("R3 templates: {expr} and {unit} exactly once; unit inside the quotes for PostgreSQL-family/default, outside for MySQL/Oracle; selection by ctx.dialect")
     run.rule("R4 MICROSECOND-only / quarters / weeks emit the stored value untrimmed; constructor stores quarters/weeks exclusively (early return)")
+    run.rule("R5 no construction of an Interval in the package passes `<x>.days` together with a component derived from `<x>.seconds` / `<x>.microseconds` (timedelta fields carry the sign on .days only)")
     run.exhaustive = True
     iv = program.cls("Interval")
     units = _const_list(iv.class_attrs.get("units"))
@@ -99,6 +148,11 @@ def check(program: Program, run: Run) -> None:
     gs = iv.methods.get("get_sql")
     if init is None or gs is None:
         raise AnalysisError("anchor vanished: Interval.__init__/get_sql")
+
+    # ---- R5: every construction of an Interval inside the package hands the constructor components of ONE sign (the
+    # sign of the first non-zero component is prefixed to the whole literal, the others are written by magnitude).  The
+    # fields of a datetime.timedelta do not have one sign: only .days is negative, .seconds / .microseconds never are.
+    _mixed_sign_constructions(program, run, iv)
 
     # ---- R1
     ok = len(units) == len(labels) == 7
